@@ -1523,7 +1523,7 @@ NESTED_CALL_EXPECTED = "2|ein lokaler Text, der lang genug ist|8|1 2 3 |"
 def raw_programs():
     return [
         (dict(kind="raw", name="Kombination nested three levels deep: copies of the outermost value, then in-place changes"),
-         dict(raw=NESTED, expected=NESTED_EXPECTED)),
+         dict(raw=NESTED, expected=NESTED_EXPECTED, name="Kombination nested three levels deep")),
         (dict(kind="raw", name="value parameter handed on by Referenz inside the argument of another call"),
-         dict(raw=NESTED_CALL, expected=NESTED_CALL_EXPECTED)),
+         dict(raw=NESTED_CALL, expected=NESTED_CALL_EXPECTED, name="value parameter handed on by Referenz inside a nested call")),
     ]
